@@ -171,7 +171,7 @@ func c07Judge(c *mon.Ctx, text, mutation string, opts *geojson.ParseOptions) ref
 				c.Violation("rejected-wellformed", "a well-formed document was rejected", mk("error: "+err.Error(), ""))
 				return
 			}
-			if e := cmpDoc(res.Doc, o, true); e != nil {
+			if e := cmpDoc(res.Doc, o, opts == nil || !opts.DisableCircleType); e != nil {
 				c.Violation("decoded-differently", "accepted document decoded differently from the reference reader", mk("accepted", e.Error()))
 			}
 		case refjson.Defect:
@@ -224,9 +224,24 @@ func c07Run(c *mon.Ctx) {
 		if i%5 == 0 {
 			text = []string{" ", "\n\t", "\r\n "}[r.Intn(3)] + text + []string{" ", "\n", "\t\r\n"}[r.Intn(3)]
 		}
+		// acceptance and the decoded values do not depend on the options either
+		// (the representation options only change the Go kind, which cmpDoc allows)
 		var popts *geojson.ParseOptions
-		if i%4 == 1 {
+		switch i % 6 {
+		case 1:
 			popts = &geojson.ParseOptions{IndexChildren: r.Intn(3), IndexGeometry: r.Intn(3), IndexGeometryKind: geometry.IndexKind(r.Intn(3))}
+		case 3:
+			po := baseOpts()
+			po.AllowRects, po.AllowSimplePoints = true, r.Intn(2) == 0
+			popts = &po
+		case 5:
+			po := baseOpts()
+			po.AllowSimplePoints, po.DisableCircleType = r.Intn(2) == 0, r.Intn(2) == 0
+			po.IndexChildren, po.IndexGeometry = 1, 1
+			popts = &po
+		}
+		if popts != nil {
+			c.Count("non_default_options")
 		}
 		res := c07Judge(c, text, "", popts)
 		if res.Class == refjson.WellFormed {
@@ -273,7 +288,7 @@ func c07Replay(kind string, raw json.RawMessage) (bool, string) {
 }
 
 func init() {
-	must := []string{"wellformed", "defect", "unclassified"}
+	must := []string{"wellformed", "defect", "unclassified", "non_default_options"}
 	for _, m := range gen.MutationNames {
 		must = append(must, "mutant "+m+" -> defect")
 	}
